@@ -214,6 +214,7 @@ package logdb
 //@ func (r *db) saveState [C10 C04 C03 C09]
 //@ noframe
 //@ nobounds
+//@ modifies entries(r.cs.ps), held(r.cs.mu), gPuts, gPutKind, gPutShard, gPutReplica, gPutIndex, gPutBE64, gPutVal, gPutValLen, gKK, gKS, gKR, gKI, gKBuf
 //@ free requires r.cs != nil && r.cs.ps != nil
 //@ ensures gIOFailed == old(gIOFailed) && gDels == old(gDels)
 //@ ensures (st.Term != 0 || st.Vote != 0 || st.Commit != 0) && !(old(mk(raftio.NodeInfo, shardID, replicaID) in r.cs.ps) && old(r.cs.ps[mk(raftio.NodeInfo, shardID, replicaID)].Term) == st.Term && old(r.cs.ps[mk(raftio.NodeInfo, shardID, replicaID)].Vote) == st.Vote && old(r.cs.ps[mk(raftio.NodeInfo, shardID, replicaID)].Commit) == st.Commit) ==>
@@ -225,7 +226,7 @@ package logdb
 //@ noframe
 //@ nobounds
 //@ requires wb != nil
-//@ modifies gRecMaxIndex, gMaxIdxPuts, gLastMaxIdxPut
+//@ modifies gRecMaxIndex, gMaxIdxPuts, gLastMaxIdxPut, entries(r.cs.maxIndex), held(r.cs.mu), gPuts, gPutKind, gPutShard, gPutReplica, gPutIndex, gPutBE64, gPutVal, gPutValLen, gKK, gKS, gKR, gKI, gKBuf
 //@ ensures gMaxIdxPuts == old(gMaxIdxPuts) + 1 && gLastMaxIdxPut == maxIndex && gIOFailed == old(gIOFailed)
 // recording entries cannot report an error, so a storage error met while recording (the batched
 // format reads the stored batch back to merge with it) must fail-stop, never be absorbed
@@ -340,6 +341,7 @@ package logdb
 // verified (was trusted): afterwards the cache holds, for THIS replica, a private copy of exactly the given entries
 //@ func (r *cache) setLastBatch [C10 C09]
 //@ noframe
+//@ modifies entries(r.lastEntryBatch), held(r.mu)
 //@ free requires r.lastEntryBatch != nil && (mk(raftio.NodeInfo, shardID, replicaID) in r.lastEntryBatch ==> disjoint(eb.Entries, r.lastEntryBatch[mk(raftio.NodeInfo, shardID, replicaID)].Entries))
 //@ ensures mk(raftio.NodeInfo, shardID, replicaID) in r.lastEntryBatch && len(r.lastEntryBatch[mk(raftio.NodeInfo, shardID, replicaID)].Entries) == len(eb.Entries)
 //@ ensures forall i int :: 0 <= i && i < len(eb.Entries) ==> r.lastEntryBatch[mk(raftio.NodeInfo, shardID, replicaID)].Entries[i].Index == old(eb.Entries[i].Index) && r.lastEntryBatch[mk(raftio.NodeInfo, shardID, replicaID)].Entries[i].Term == old(eb.Entries[i].Term)
@@ -456,13 +458,13 @@ package logdb
 //@ func (r *db) saveBootstrap [C20 C09]
 //@ noframe
 //@ nobounds
-//@ modifies gRecBootstrap
+//@ modifies gRecBootstrap, gPuts, gPutKind, gPutShard, gPutReplica, gPutIndex, gPutBE64, gPutVal, gPutValLen, gKK, gKS, gKR, gKI, gKBuf
 //@ ghostset gRecBootstrap := 1
 //@ ensures gPuts == old(gPuts) + 1 && gDels == old(gDels) && gPutKind == 5 && gPutShard == shardID && gPutReplica == replicaID
 //@ func (r *db) saveStateAllocs [C20 C09]
 //@ noframe
 //@ nobounds
-//@ modifies gRecState
+//@ modifies gRecState, gPuts, gPutKind, gPutShard, gPutReplica, gPutIndex, gPutBE64, gPutVal, gPutValLen, gKK, gKS, gKR, gKI, gKBuf
 //@ ghostset gRecState := 1
 //@ ensures gPuts == old(gPuts) + 1 && gDels == old(gDels) && gPutKind == 3 && gPutShard == shardID && gPutReplica == replicaID
 // gMaxIdxPuts / gLastMaxIdxPut: number of max-index records put into a write batch so far, and the
@@ -474,7 +476,7 @@ package logdb
 //@ func (r *db) saveMaxIndex [C20 C09]
 //@ noframe
 //@ requires wb != nil
-//@ modifies gRecMaxIndex, gMaxIdxPuts, gLastMaxIdxPut
+//@ modifies gRecMaxIndex, gMaxIdxPuts, gLastMaxIdxPut, gPuts, gPutKind, gPutShard, gPutReplica, gPutIndex, gPutBE64, gPutVal, gPutValLen, gKK, gKS, gKR, gKI, gKBuf
 //@ ghostset gRecMaxIndex := 1
 //@ ghostset gMaxIdxPuts := old(gMaxIdxPuts) + 1
 //@ ghostset gLastMaxIdxPut := index
@@ -485,6 +487,7 @@ package logdb
 //@ func (r *db) saveRemoveNodeData [C20 C10 C09]
 //@ noframe
 //@ nobounds
+//@ modifies gDels, gDelKind, gDelShard, gDelReplica, gDelIndex, gDelCnt, gKK, gKS, gKR, gKI, gKBuf
 //@ ensures gPuts == old(gPuts) && gDels == old(gDels) + 3 + len(snapshots)
 //@ ensures gDelOfShard == shardID && gDelOfReplica == replicaID ==> gDelCnt[3] == old(gDelCnt)[3] + 1 && gDelCnt[5] == old(gDelCnt)[5] + 1 && gDelCnt[4] == old(gDelCnt)[4] + 1 && gDelCnt[6] == old(gDelCnt)[6] + len(snapshots)
 //@ loop 1 invariant gPuts == old(gPuts) && gDels == old(gDels) + 3 + ($i + 1)
